@@ -22,6 +22,7 @@ def check(ctx: Ctx) -> None:
     S.r_lifecycle_callers(ctx, "R12.2h")
     SP.r_spawner_iterations(ctx, "R12.3")
     CL.r_return_exceptions(ctx, "R12.4")
+    CL.r_forget_only_gathered(ctx, "R12.6")
     r_only_user_raises(ctx, "R12.5")
     S.r_snapshot_forget(ctx, "R13.1")
     S.r_registry_who(ctx, "R03.1")
